@@ -561,7 +561,9 @@ package gojq
 //@ func (l *lexer) Lex(lval *yySymType) (tokenType int)
 //@   property C17
 //@   requires lval != nil
+//@   property F
 //@   requires forall k string :: {global(keywords)[k]} (k in global(keywords)) ==> global(keywords)[k] >= 128
+//@   property C17
 //@   modifies *
 //@   ensures tokenSpan(l, tokenType)
 
@@ -733,7 +735,9 @@ package gojq
 //@   property C11
 //@   using cmpv_range cmpv_antisym cmpv_trans
 //@   requires len(vs) == len(xs)
+//@   property F
 //@   requires forall k :: {inD(xs[k])} 0 <= k && k < len(xs) ==> inD(xs[k])
+//@   property C11
 //@   loop 1 invariant 1 <= i && i <= len(xs) && 0 <= j && j < i && x == xs[j]
 //@   loop 1 invariant isMin ==> (forall k :: {cmpv(xs[j], xs[k])} 0 <= k && k < i ==> cmpv(xs[j], xs[k]) <= 0)
 //@   loop 1 invariant !isMin ==> (forall k :: {cmpv(xs[j], xs[k])} j < k && k < i ==> cmpv(xs[j], xs[k]) > 0)
@@ -1050,3 +1054,22 @@ package gojq
 //@   ensures ok == ((x is int) || (x is float64) || (x is *big.Int) || (x is json.Number))
 //@   ensures (x is float64) ==> r == x.(float64)
 //@   ensures (x is int) ==> r == float64(x.(int))
+
+// C08: the documented preconditions of the exported entry points (Marshal accepts only the nine JSON
+// representation types; the arity of a custom function must satisfy 0 <= min <= max <= 30, otherwise
+// WithFunction panics by design).
+//@ axiom djson_scalar: forall v any :: {djson(v)} isJSON(v) && !(v is []any) && !(v is map[string]any) ==> djson(v)
+//@ func Marshal(v any) (bs []byte, err error)
+//@   property C08
+//@   requires djson(v)
+//@ func jsonMarshal(v any) (s string)
+//@   property C08
+//@   requires djson(v)
+//@ func WithFunction(name string, minarity, maxarity int, f func(any, []any) any) (o CompilerOption)
+//@   property C08
+//@   modifies *
+//@   requires 0 <= minarity && minarity <= maxarity && maxarity <= 30
+//@ func WithIterFunction(name string, minarity, maxarity int, f func(any, []any) Iter) (o CompilerOption)
+//@   property C08
+//@   modifies *
+//@   requires 0 <= minarity && minarity <= maxarity && maxarity <= 30
